@@ -36,7 +36,7 @@ M = [
  ("m31", "tx.go", "\t\tif tx.db.ActiveFile.ActualSize+entrySize > tx.db.opt.SegmentSize {", "\t\tif tx.db.ActiveFile.ActualSize+entrySize >= tx.db.opt.SegmentSize {", None, "(benign: rotates one entry early)"),
  ("m32", "tx_set.go", "\tif err := tx.sPut(bucket1, key1, DataDeleteFlag, item); err != nil {\n\t\treturn false, err\n\t}\n\n\tif err := tx.sPut(bucket2, key2, DataSetFlag, item); err != nil {", "\tif err := tx.sPut(bucket2, key2, DataDeleteFlag, item); err != nil {\n\t\treturn false, err\n\t}\n\n\tif err := tx.sPut(bucket2, key2, DataSetFlag, item); err != nil {", ["C06"], "SMove forgets to remove the member from the source"),
  ("m33", "tx.go", "\ttx.unlock()\n\n\ttx.db = nil\n\ttx.pendingWrites = nil\n\n\treturn nil\n}\n\n// lock locks", "\ttx.db = nil\n\ttx.pendingWrites = nil\n\n\treturn nil\n}\n\n// lock locks", None, "(breaks tests: deadlock)"),
- ("m34", "rwmanger_mmap.go", "\treturn copy(mm.m[off:], b), nil\n}\n\n// ReadAt", "\tif int64(len(b)) > int64(len(mm.m))-off {\n\t\tb = b[:int64(len(mm.m))-off-1]\n\t}\n\treturn copy(mm.m[off:], b), nil\n}\n\n// ReadAt", ["C19", "C09"], "MMap WriteAt drops the last byte of a record that ends exactly at the segment end"),
+ ("m34", "rwmanger_mmap.go", "\treturn copy(mm.m[off:], b), nil\n}\n\n// ReadAt", "\tif int64(len(b)) >= int64(len(mm.m))-off {\n\t\tb = b[:int64(len(mm.m))-off-1]\n\t}\n\treturn copy(mm.m[off:], b), nil\n}\n\n// ReadAt", ["C19", "C09"], "MMap WriteAt drops the last byte of a record that ends exactly at the segment end"),
  ("m35", "db.go", "\tdb.closed = true\n\n\tdb.ActiveFile.rwManager.Close()", "\tdb.closed = true\n\n\tif db.opt.RWMode != MMap {\n\t\tdb.ActiveFile.rwManager.Close()\n\t}", None, "(not observable)"),
  ("m36", "tx_zset.go", "\tscoreBytes := []byte(strconv.FormatFloat(score, 'f', -1, 64))", "\tscoreBytes := []byte(strconv.FormatFloat(score, 'f', 3, 64))", None, "(scores in alphabets are integral)"),
  ("m37", "tx_list.go", "\tif count > size || -count > size {\n\t\treturn 0, list.ErrCount\n\t}", "\tif count >= size || -count > size {\n\t\treturn 0, list.ErrCount\n\t}", ["C05"], "LRem rejects count == size"),
